@@ -576,17 +576,90 @@ def _layer_id(off, g, ind, split, s):
     return z3.If(split, off + 10 * ind + s, g)
 
 
+class _IdFormulaError(Exception):
+    pass
+
+
+def _ids_from_code():
+    """the two expressions of CeiloChunk.find_layers that generate layer ids, translated from the REAL source (re-read on every
+    run): `id_offset = <E1>` and `self.data.loc[in_group, 'layer_id'] = <E2>`.  Symbols: gmax = self.data['group_id'].max() (every
+    group id is <= gmax), ngroups = self.n_groups (number of distinct group ids >= 0, hence 1 <= ngroups <= gmax + 1), ind = table
+    row of the group, comp = mixture label of the hit.  Anything else in the expressions => the lemma cannot be stated (UNDECIDED)."""
+    import ast
+    from pyvc import source
+    fi = source.find_function('ampycloud.data.CeiloChunk.find_layers')
+    e1 = e2 = None
+    for n in ast.walk(fi.node):
+        if isinstance(n, ast.Assign) and len(n.targets) == 1:
+            t = n.targets[0]
+            if isinstance(t, ast.Name) and t.id == 'id_offset':
+                e1 = n.value if e1 is None else _raise('id_offset assigned twice')
+            if isinstance(t, ast.Subscript) and 'layer_id' in ast.dump(t.slice) and 'in_group' in ast.dump(t.slice):
+                e2 = n.value if e2 is None else _raise('several writes of split-group layer ids')
+    if e1 is None or e2 is None:
+        _raise('id_offset / split-group layer id assignment not found in find_layers')
+    return e1, e2
+
+
+def _raise(msg):
+    raise _IdFormulaError(msg)
+
+
+def _tr(e, env):
+    """integer expression -> z3 (fail closed)"""
+    import ast
+    if isinstance(e, ast.Constant) and isinstance(e.value, int) and not isinstance(e.value, bool):
+        return z3.IntVal(e.value)
+    if isinstance(e, ast.Name):
+        if e.id in env:
+            return env[e.id]
+        _raise(f'name {e.id} in the layer id formula')
+    if isinstance(e, ast.BinOp):
+        a, b = _tr(e.left, env), _tr(e.right, env)
+        if isinstance(e.op, ast.Add):
+            return a + b
+        if isinstance(e.op, ast.Sub):
+            return a - b
+        if isinstance(e.op, ast.Mult):
+            return a * b
+        if isinstance(e.op, ast.FloorDiv):
+            if not (isinstance(e.right, ast.Constant) and isinstance(e.right.value, int) and e.right.value > 0):
+                _raise('floor division by a non-constant')
+            return a / b                  # z3 integer division = floor division for a positive constant divisor
+        _raise(f'operator {type(e.op).__name__} in the layer id formula')
+    if isinstance(e, ast.Call) and isinstance(e.func, ast.Name) and e.func.id == 'max' and len(e.args) == 2 and not e.keywords:
+        a, b = _tr(e.args[0], env), _tr(e.args[1], env)
+        return z3.If(a >= b, a, b)
+    if isinstance(e, ast.Call) and isinstance(e.func, ast.Name) and e.func.id == 'int' and len(e.args) == 1 and not e.keywords:
+        return _tr(e.args[0], env)
+    src = ast.unparse(e)
+    if src == "self.data['group_id'].max()":
+        return env['gmax']
+    if src == 'self.n_groups':
+        return env['ngroups']
+    _raise(f'sub-expression `{src}` in the layer id formula')
+
+
 def _c05_ids():
-    """two hits with the same layer id belong to the same group (and, if split, to the same component)"""
-    off, gmax = z3.Ints('off gmax')
+    """two hits with the same layer id belong to the same group (and, if split, to the same component) -- for the id formulas
+    found in the real find_layers"""
+    off, gmax, ngroups = z3.Ints('off gmax ngroups')
     g1, g2, i1, i2, s1, s2 = z3.Ints('g1 g2 i1 i2 s1 s2')
     sp1, sp2 = z3.Bools('sp1 sp2')
-    hy = [gmax >= 0, off == 100 * (1 + gmax / 100),            # id_offset = 100*(1 + max(group id)//100)
+    e1, e2 = _ids_from_code()
+    comp_names = ('row_order_ids', 'sub_layers_id')
+
+    def lid(g, ind, split, s):
+        env = {'id_offset': off, 'ind': ind, 'gmax': gmax, 'ngroups': ngroups}
+        env.update({c: s for c in comp_names})
+        return z3.If(split, _tr(e2, env), g)          # an unsplit group's hits get the group id itself (fill at the end of find_layers)
+    hy = [gmax >= 0, ngroups >= 1, ngroups <= gmax + 1,
+          off == _tr(e1, {'gmax': gmax, 'ngroups': ngroups}),
           0 <= g1, g1 <= gmax, 0 <= g2, g2 <= gmax,             # ids of existing groups
-          i1 >= 0, i2 >= 0, (i1 == i2) == (g1 == g2),           # one table row per group id
+          i1 >= 0, i2 >= 0, i1 < ngroups, i2 < ngroups, (i1 == i2) == (g1 == g2),           # one table row per group id
           0 <= s1, s1 <= 2, 0 <= s2, s2 <= 2,                   # mixture-model labels (at most three components)
-          sp1 == sp2 if False else z3.Implies(g1 == g2, sp1 == sp2),
-          _layer_id(off, g1, i1, sp1, s1) == _layer_id(off, g2, i2, sp2, s2)]
+          z3.Implies(g1 == g2, sp1 == sp2),
+          lid(g1, i1, sp1, s1) == lid(g2, i2, sp2, s2)]
     return hy, z3.And(g1 == g2, z3.Implies(sp1, s1 == s2))
 
 
@@ -606,7 +679,7 @@ _register_10 = register
 def register(reg):      # noqa: F811
     _register_10(reg)
     reg.add_lemma(Lemma('prop.C05.layer_ids_injective', direct=_c05_ids, properties=('C05',),
-                        doc='offset above all group ids + 10*row + component (0..2): equal layer ids => same group (and same component)'))
+                        doc='for the id formulas read from the real find_layers (offset, offset + 10*row + component): equal layer ids => same group (and same component)'))
 
 
 def _cnt_ext_base():
